@@ -69,6 +69,7 @@ EXPECT = {
     'CP2': [('FixtureLint::AltSum', '_a/_alt_a')],
     'SWP1': [('FixtureLint::Order', 'sphi1,sphi2')],
     'SC1': [('FixtureLint::Radius', 'calp,salp')],
+    'POS1': [('FixtureLint::Trim', 'end')],
     'CP1': [('FixtureLint::Pad', 'easting/northing')],
     'X7r': [('FixtureShared::HalfFilled', 'alpha_')],
     'K7': [('FixtureRaster::probe', 'B1 filepos column')],
@@ -170,6 +171,9 @@ def run_controls(rules):
         elif r == 'SC1':
             from .rules import lint
             res = lint.rule_SC1(fx, None)[0]
+        elif r == 'POS1':
+            from .rules import lint
+            res = lint.rule_POS1(fx, None)[0]
         elif r == 'CP1':
             from .rules import lint
             res = lint.rule_CP1(fx, None)[0]
